@@ -67,8 +67,11 @@ def make_case(rng, cli):
             "rate_modifier": rmod, "eff_index": eff, "cli": cli, "indexed": True}
     if rng.random() < 0.7:
         case["ode_modifier"] = c01.make_modifiers(rng, net, nmax=2, maxdeps=3)
-        for m in case["ode_modifier"].values():      # the CLI syntax has no room for ',' ':' or ';' in a factor
-            m["factors"] = [(f if "*" not in f else f.replace("nH*", "nH*"), v) for f, v in m["factors"]]
+        compound = [("-nH*0.5 + 2.0*zeta", -PARAMS["nH"] * 0.5 + 2.0 * PARAMS["zeta"]), ("-1.0e3*zeta - 0.25", -1.0e3 * PARAMS["zeta"] - 0.25),
+                    ("-zeta + nH*0.125", -PARAMS["zeta"] + PARAMS["nH"] * 0.125), ("2.0 - nH*0.01", 2.0 - PARAMS["nH"] * 0.01)]
+        for m in case["ode_modifier"].values():      # arithmetic with signs; the CLI syntax only excludes ',' ':' ';'
+            m["factors"] = [(list(rng.choice(compound)) if rng.random() < 0.4 else (f, v)) for f, v in m["factors"]]
+            m["factors"] = [tuple(x) for x in m["factors"]]
     names = [s["name"] for s in net["species"]]
     case["ys"] = [{n: 0.5 + 1.5 * rng.random() for n in names} for _ in range(2)]
     case["ks"] = [chem.distinct_alphas(rng, max(1, len(reacs)))]
